@@ -93,6 +93,18 @@ func Compile(sources map[string]string) (c *Compiled, err error) {
 	return &Compiled{Sources: sources, Image: img, Files: files}, nil
 }
 
+// Reordered returns the same compiled schema as an image whose Files() are permuted by perm
+// (bufimage.NewImage keeps the given order; nothing promises callers a topological order).
+func (c *Compiled) Reordered(r *hx.Rand) (*Compiled, error) {
+	files := append([]bufimage.ImageFile(nil), c.Image.Files()...)
+	hx.Shuffle(r, files)
+	img, err := bufimage.NewImage(files)
+	if err != nil {
+		return nil, err
+	}
+	return &Compiled{Sources: c.Sources, Image: img, Files: c.Files}, nil
+}
+
 // ---------------------------------------------------------------------------------------------
 // Encoding for the Lean driver (see lean/Driver/Breaking.lean).
 
